@@ -137,7 +137,7 @@ def strategy():
     updj = qgen.st_case_update(js=True, join_p=1, multi_match=True)
     exc = qgen.st_case_select(js=True, join_p=0, except_p=1, distinct=True, top=True, order=True)
     from . import c04
-    return st.one_of(sel, ordd, joins, st_agg_case(), upd, updj, st_failing(), exc, c04.st_int_key_join())
+    return st.one_of(sel, ordd, joins, st_agg_case(), upd, updj, st_failing(), exc, c04.st_int_key_join(), qgen.st_case_typed(js=True))
 
 
 JS_ERR = {'parsing': ('RbqlParsingError', 'SyntaxError'), 'runtime': ('RbqlRuntimeError',)}
